@@ -852,7 +852,7 @@ where
                 BinOp {
                     apply: and,
                     prio: 2,
-                    is_commutative: true,
+                    is_commutative: false,
                 },
             ),
             Operator::make_bin(
@@ -860,7 +860,7 @@ where
                 BinOp {
                     apply: or,
                     prio: 2,
-                    is_commutative: true,
+                    is_commutative: false,
                 },
             ),
             Operator::make_bin(
